@@ -9,6 +9,11 @@ REPLAY_DIR = os.path.join(VERIF, 'replay')
 KNOWN = os.path.join(VERIF, 'known_findings.json')
 
 
+# rules that scan for a violating construct wherever it sits (no expectation about the shape of the surrounding function):
+# their verdict stands even when the functions around the construct were restructured
+ROBUST_RULES = {'STATE', 'DECOR', 'RNG', 'GLOBALS'}
+
+
 class Obligation:
     __slots__ = ('rule', 'anchor', 'loc', 'fact', 'ok', 'detail', 'construct', 'nontrivial', 'known', 'robust', 'stmtdiff')
 
@@ -74,7 +79,7 @@ class Check:
             from .core import norm_stmt
             construct = norm_stmt(node) if node is not None else fact
         o = Obligation(rule, anchor, loc, fact, bool(ok), detail, construct, nontrivial)
-        o.robust = robust
+        o.robust = robust or rule in ROBUST_RULES
         self.obs.append(o)
         return o
 
@@ -108,23 +113,38 @@ class Check:
         refused = []
         inl = getattr(repo, 'inliner', None) if repo is not None else None
         if inl is not None:
-            refused = sorted({'%s (%s)' % (h.split(':')[-1], why) for c, h, why in inl.refused if c in self.functions})
-        mismatching = {o.anchor: o for o in self.obs if not o.ok and o.stmtdiff and o.stmtdiff[0] and o.rule == 'RECUR'}.values()
+            mods = {q.split(':')[0] for q in self.functions}
+            # a helper that is new to the tree and could not be folded back into its caller hides part of a reviewed function
+            from .template import HelperInliner
+
+            def folded_anyway(c, h, why):
+                # single-expression helpers are folded into their callers when effects are compared
+                if why != 'called inside an expression' or c not in repo.funcs or h not in repo.funcs:
+                    return False
+                try:
+                    return HelperInliner(repo.funcs[c]).simple(repo.funcs[h]) is not None
+                except Exception:
+                    return False
+            refused = [(c, h, why) for c, h, why in inl.refused if (c in self.functions or c.split(':')[0] in mods) and not folded_anyway(c, h, why)]
+        mismatching = {o.anchor: o for o in self.obs if not o.ok and o.stmtdiff and o.stmtdiff[0] and o.rule in ('RECUR', 'DEPS')}.values()
         mismatching = list(mismatching)
-        if not big and not refused and len(mismatching) < 4:
+        whole_run = bool(big) or len(mismatching) >= 4
+        hidden = {c for c, h, why in refused}        # functions part of whose reviewed body now sits in a helper that cannot be folded back
+        if not whole_run and not any((not o.ok and not o.robust and o.anchor in hidden) for o in self.obs):
             return
-        self.restructured = {o.anchor for o in mismatching} or {'*'}
         reason = []
         if big:
             reason.append('rewritten: ' + ', '.join(sorted({'%s (%d of %d statements)' % (o.anchor.split(':')[-1], o.stmtdiff[0], o.stmtdiff[1]) for o in big})[:4]))
-        if refused:
-            reason.append('calls helpers that cannot be inlined: ' + ', '.join(refused[:4]))
         if len(mismatching) >= 4:
             reason.append('%d reviewed functions differ at once' % len(mismatching))
         keep = []
         for o in self.obs:
-            if not o.ok and not o.robust:
-                self.errors.append((o.rule, 'RESTRUCTURED: cannot decide "%s" at %s [%s]' % (o.fact[:90], o.loc, '; '.join(reason)[:300])))
+            if not o.ok and not o.robust and (whole_run or o.anchor in hidden):
+                why = list(reason)
+                if o.anchor in hidden:
+                    why.append('calls helpers that cannot be folded back: ' + ', '.join(sorted({'%s (%s)' % (h.split(':')[-1], w) for c, h, w in refused if c == o.anchor})[:3]))
+                self.restructured.add(o.anchor)
+                self.errors.append((o.rule, 'RESTRUCTURED: cannot decide "%s" at %s [%s]' % (o.fact[:90], o.loc, '; '.join(why)[:300])))
             else:
                 keep.append(o)
         self.obs = keep
